@@ -91,6 +91,13 @@ Theorem c15_bad_beginstring_partial : forall p msgs chunks v tail closed,
 Proof. exact bad_beginstring_lemma. Qed.
 Print Assumptions c15_bad_beginstring_partial.
 
+(* The fuel of the model's loops is always enough and the classification of endings is complete:
+   for every configuration, stream and chunking the run ends in one of Wait / PeerReset /
+   IllegalMessage / InvalidVersion / InvalidBodyLength / out-of-bounds write. *)
+Theorem c15_fuel_enough : forall p chunks closed, snd (run p chunks closed) <> EOther.
+Proof. exact fuel_enough_lemma. Qed.
+Print Assumptions c15_fuel_enough.
+
 (* F19: the property is violated.  32 digits + SOH overflow tag[32] (31 do not); a first or second
    field value of 2048 bytes overflows val[2048] (2047 do not); BodyLength 2^32+5 is read as 5:
    the oracle says corrupted preamble, the reader hands a 5-byte-body frame on. *)
